@@ -10,6 +10,10 @@ def run(ctx):
     g, m, rounds = (8, 200, 10) if ctx.quick() else (64, 100, 24)
     summ, res, hw, ln, events = S.traces(ctx, "TestZZVSessionConc", {"ZZV_G": g, "ZZV_M": m, "ZZV_ROUNDS": rounds},
                                          "c02conc", cfg="TraceSessionSeal.cfg")
+    if summ.get("data_race"):
+        ctx.finding("Session:data-race:SessionKey",
+                    "the race detector reports unsynchronised access inside SessionKey while sealing concurrently "
+                    "(the send counter is not read and incremented atomically)", {"race": summ.get("race_excerpt")})
     if summ["duplicates"]:
         ctx.finding("Session:nonce-reuse:concurrent-encrypt",
                     "%d duplicate nonces among %d concurrent Encrypt calls" % (summ["duplicates"], summ["sealed"]), summ)
